@@ -391,6 +391,23 @@ pub fn run(ctx: &Ctx) -> Outcome {
             }
         }
     }
+    // wide containers: many sibling containers at small depth (around 255 / 256 entries and beyond)
+    for n in [254usize, 255, 256, 257, 300, 1000] {
+        let key = |i: usize| format!("k{:04}", i).into_bytes();
+        let wide: Vec<(&str, V)> = vec![
+            ("list of empty dictionaries", V::List((0..n).map(|_| V::Dict(vec![])).collect())),
+            ("list of lists", V::List((0..n).map(|i| V::List(vec![V::Int(i as i64)])).collect())),
+            ("dictionary of dictionaries", V::Dict((0..n).map(|i| (key(i), V::Dict(vec![(b"x".to_vec(), V::Int(i as i64))]))).collect())),
+            ("torrent-shaped files list", V::Dict(vec![(b"info".to_vec(), V::Dict(vec![(b"files".to_vec(), V::List((0..n).map(|i| V::Dict(vec![(b"length".to_vec(), V::Int(i as i64)), (b"path".to_vec(), V::Str(key(i)))])).collect()))]))])),
+            ("dictionaries followed by a nested list", V::List((0..n).map(|_| V::Dict(vec![])).chain(std::iter::once(V::List(vec![V::List(vec![])]))).collect())),
+        ];
+        for (what, v) in wide {
+            bin_docs += 1;
+            if let Some((class, summary)) = check_value(&v) {
+                ctx.violation(class, format!("({} with {} entries) {}", what, n, &summary[..summary.len().min(200)]), json!({"wide": what, "n": n}));
+            }
+        }
+    }
     evaluations += bin_docs;
     containers += bin_docs;
 
@@ -420,7 +437,7 @@ pub fn run(ctx: &Ctx) -> Outcome {
     o.set("binary_string_documents", json!(bin_docs));
     o.set("filler_lengths", json!(pads.len()));
     o.set("nesting_ladder_values", json!(ladder));
-    o.set("rule", json!("every value of three index-addressable families is generated exactly once (mixed-radix index -> value): lists with repetition and dictionaries with distinct keys of at most `width` children over (depth1) 17 leaves, (depth2) 3 reduced leaves + all depth-1 containers over them, (depth3) those + width-1 depth-2 containers. Non-trivial = a container (all indices give distinct values); the 17 bare leaves are counted in evaluations only. Plus binary strings: every byte string of length 0..=2 (65 793) as a bare value, a list element, a dictionary value and a dictionary key, and strings of 255, 256, 65535, 65536, 65537, 100000, 2^20 and 2^21+1 bytes in the same positions. Plus long documents: 12 small values (scalars, empty and nested containers) behind a filler string of every length 0..=600 (thorough 0..=5000) and 2^k-4..=2^k+4 for k = 10..=14 (17), in three layouts (list, dictionary, list of list); plus nesting ladders of depth 1..=256 (lists, dictionaries, alternating) — 256 is the decoder's documented nesting limit."));
+    o.set("rule", json!("every value of three index-addressable families is generated exactly once (mixed-radix index -> value): lists with repetition and dictionaries with distinct keys of at most `width` children over (depth1) 17 leaves, (depth2) 3 reduced leaves + all depth-1 containers over them, (depth3) those + width-1 depth-2 containers. Non-trivial = a container (all indices give distinct values); the 17 bare leaves are counted in evaluations only. Plus binary strings: every byte string of length 0..=2 (65 793) as a bare value, a list element, a dictionary value and a dictionary key, and strings of 255, 256, 65535, 65536, 65537, 100000, 2^20 and 2^21+1 bytes in the same positions. Plus wide containers: 254..257, 300 and 1000 sibling dictionaries / lists in a list, as dictionary values, as a torrent-shaped files list, and followed by a nested list. Plus long documents: 12 small values (scalars, empty and nested containers) behind a filler string of every length 0..=600 (thorough 0..=5000) and 2^k-4..=2^k+4 for k = 10..=14 (17), in three layouts (list, dictionary, list of list); plus nesting ladders of depth 1..=256 (lists, dictionaries, alternating) — 256 is the decoder's documented nesting limit."));
     o.set("families", Value::Array(per_family));
     o.set("samples", Value::Array(samples));
     o.set("exhaustive", json!(exhaustive));
@@ -431,6 +448,10 @@ pub fn run(ctx: &Ctx) -> Outcome {
 }
 
 pub fn replay(_ctx: &Ctx, r: &Value) -> i32 {
+    if r["wide"].is_string() {
+        println!("a wide container ({} with {} entries); `./check C15` repeats it", r["wide"], r["n"]);
+        return 1;
+    }
     if let Some(len) = r["long_string_len"].as_u64() {
         let v = long_string_forms(len as usize).remove(r["form"].as_u64().unwrap_or(0) as usize);
         return match check_value(&v) {
